@@ -1,8 +1,138 @@
-import AlgoVerif.Common
-/-! Line-protocol component for C10 — not built yet. -/
+import AlgoVerif.Model.C10
+/-!
+Line-protocol component for C10 and C12 (shared; `Driver/C12.lean` delegates here).
+
+A case is a grammar description (`terms …`, `nonterms …`, `start S`, `prod H : body`, see
+`Model/GrammarCore.lean`; each answers `ok`) followed by query ops:
+
+```
+nullable            -> ok {A,B}
+first X Y …         -> ok {a,b} eps=false            (panic: a symbol reached is not declared)
+follow A            -> ok {a} end=true               (panic: A is not declared)
+ll1                 -> ok true | ok false [ff A: α | β; ef A: eps=α other=β]
+table               -> ok conflicts=[A/a …] cells=[A/a:{p|q} A/$:sync …]
+parse a b c         -> ok accept p₁; p₂; … | ok reject terminal|noentry|trailing | ok table-error
+ast a b c           -> ok <tree> yield=[a b c]   | as parse
+unchanged           -> ok true                       (the caller's grammar still equals its clone)
+```
+On a grammar that fails `Verify()` every query answers `ok invalid`.
+-/
 namespace AlgoVerif.C10.Driver
+open AlgoVerif AlgoVerif.Gram AlgoVerif.C10
+
+def showSet (l : List String) : String := "{" ++ ",".intercalate (sortDedup l) ++ "}"
+
+def prodKey (p : SProd) : String := p.head ++ "→" ++ showBody p.body
+
+def colName : Option String → String
+  | some a => a
+  | none => "$"
+
+def toSym (g : SGrammar) (w : String) : SSym :=
+  if g.nonterms.contains w then Sym.nonterm w else Sym.term w
+
+/-- `NewCFG`: the three components are sets -/
+def normalise (g : SGrammar) : SGrammar :=
+  { g with terms := dedup g.terms, nonterms := dedup g.nonterms, prods := dedup g.prods }
+
+def showLL1Err : LL1Err String String → String
+  | .firstFirst A α β =>
+    let a := showBody α
+    let b := showBody β
+    if a < b then s!"ff {A}: {a} | {b}" else s!"ff {A}: {b} | {a}"
+  | .epsFollow A e o => s!"ef {A}: eps={showBody e} other={showBody o}"
+
+def showTable (g : SGrammar) (an : Analysis String String) : String :=
+  let fi := firstStr an.first
+  let nts := sortDedup g.nonterms
+  let cols := (sortDedup g.terms).map some ++ [none]
+  let cf := conflicts g fi an.follow
+  let confl := nts.flatMap fun A => cols.filterMap fun a =>
+    if cf.contains (A, a) then some (A ++ "/" ++ colName a) else none
+  let cells := nts.flatMap fun A => cols.filterMap fun a =>
+    let ps := cell g fi an.follow A a
+    if !ps.isEmpty then some (A ++ "/" ++ colName a ++ ":{" ++ "|".intercalate (sortDedup (ps.map prodKey)) ++ "}")
+    else if syncCell g fi an.follow A a then some (A ++ "/" ++ colName a ++ ":sync")
+    else none
+  s!"ok conflicts=[{" ".intercalate confl}] cells=[{" ".intercalate cells}]"
+
+def showReject : Reject → String
+  | .terminal => "terminal"
+  | .noEntry => "noentry"
+  | .trailing => "trailing"
+
+def prodsOf (evs : List (Event String String)) : List SProd :=
+  evs.filterMap fun e => match e with
+    | .prod p => some p
+    | .tok _ _ => none
+
+mutual
+def showTree : Tree String String → String
+  | .leaf t (some k) => s!"{t}@{k}"
+  | .leaf t none => s!"{t}@?"
+  | .node A none _ => s!"({A}?)"
+  | .node _ (some p) kids => "(" ++ prodKey p ++ showKids kids ++ ")"
+def showKids : List (Tree String String) → String
+  | [] => ""
+  | k :: ks => " " ++ showTree k ++ showKids ks
+end
+
+def parseFuel : Nat := 1000000
+
+def showOutcome {α : Type} (f : α → String) : Outcome α → String
+  | .ok a => f a
+  | .panic => "panic"
+  | .diverge => "hang"
+
+def runQuery (g : SGrammar) (valid : Bool) (an : Outcome (Analysis String String)) (line : String) : String :=
+  let o : IterOrder String String := IterOrder.canon
+  match words line with
+  | ["unchanged"] => "ok true"
+  | cmd :: args =>
+    if !valid then "ok invalid" else
+    match cmd, args with
+    | "nullable", [] => showOutcome (fun l => "ok " ++ showSet l) (nullable g o)
+    | "first", xs =>
+      showOutcome id (an.bind fun an =>
+        (firstStrO g an.first (xs.map (toSym g)) []).map fun f => s!"ok {showSet f.terms} eps={showBool f.eps}")
+    | "follow", [A] =>
+      showOutcome id (an.bind fun an =>
+        if g.nonterms.contains A then
+          let f := an.follow A
+          Outcome.ok s!"ok {showSet f.terms} end={showBool f.endm}"
+        else Outcome.panic)
+    | "ll1", [] =>
+      showOutcome id (an.map fun an =>
+        let errs := ll1Errors g (firstStr an.first) an.follow
+        if errs.isEmpty then "ok true"
+        else s!"ok false [{"; ".intercalate (sortDedup (errs.map showLL1Err))}]")
+    | "table", [] => showOutcome id (an.map fun an => showTable g an)
+    | "parse", w =>
+      showOutcome id (an.bind fun an =>
+        (parseWith g an parseFuel w).map fun r =>
+          match r with
+          | .tableError => "ok table-error"
+          | .done (.reject why) => "ok reject " ++ showReject why
+          | .done (.accept evs) => ("ok accept " ++ "; ".intercalate ((prodsOf evs).map prodKey)))
+    | "ast", w =>
+      showOutcome id (an.bind fun an =>
+        (parseWith g an parseFuel w).bind fun r =>
+          match r with
+          | .tableError => Outcome.ok "ok table-error"
+          | .done (.reject why) => Outcome.ok ("ok reject " ++ showReject why)
+          | .done (.accept evs) =>
+            (buildAST evs (Tree.node g.start none [])).map fun t =>
+              s!"ok {showTree t} yield=[{" ".intercalate t.yield}]")
+    | _, _ => "bad-op"
+  | [] => "bad-op"
 
 def runCase (_hdr : List String) (ops : List String) : List String :=
-  ops.map fun _ => "bad-case"
+  -- the grammar is everything the description lines of the case say, wherever they stand
+  let g0 := ops.foldl (fun g l => (parseGrammarLine g l).1) SGrammar.empty
+  let g := normalise g0
+  let valid := validB g
+  let an := if valid then analyse g IterOrder.canon IterOrder.canon else Outcome.panic
+  ops.map fun l =>
+    if (parseGrammarLine SGrammar.empty l).2 then "ok" else runQuery g valid an l
 
 end AlgoVerif.C10.Driver
